@@ -33,8 +33,8 @@ def c02_jobs(tier):
         jobs += [J("hsms", "ZZ_C02_tree", depth=2, width=2, menu=2, maxn=1)]
     else:
         jobs += [J("hsms", "ZZ_C02_tree", depth=2, width=2, menu=6, maxn=1, timeout_s=7200),
-                 J("hsms", "ZZ_C02_tree", depth=3, width=2, menu=2, maxn=1, timeout_s=7200),
-                 J("hsms", "ZZ_C02_tree", depth=1, width=3, menu=13, maxn=2, timeout_s=7200)]
+                 J("hsms", "ZZ_C02_tree", depth=3, width=2, menu=1, maxn=1, timeout_s=7200),
+                 J("hsms", "ZZ_C02_tree", depth=1, width=2, menu=13, maxn=2, timeout_s=7200)]
     jobs += [J("hsms", "ZZ_C02_incomplete", which=w) for w in range(4)]
     jobs += [J("ast", "ZZ_C13_header", typ=t) for t in range(14)]  # format byte + shortest length for every size
     W = [1, 1, 1, 1, 8, 1, 2, 4, 8, 4, 8, 1, 2, 4]
@@ -60,8 +60,8 @@ def c01_jobs(tier):
         bsizes = [255, 256, 257]
     else:
         jobs += [J("hsms", "ZZ_C01_tree", depth=2, width=2, menu=6, maxn=1, timeout_s=7200),
-                 J("hsms", "ZZ_C01_tree", depth=3, width=2, menu=2, maxn=1, timeout_s=7200),
-                 J("hsms", "ZZ_C01_tree", depth=1, width=3, menu=13, maxn=2, timeout_s=7200)]
+                 J("hsms", "ZZ_C01_tree", depth=3, width=2, menu=1, maxn=1, timeout_s=7200),
+                 J("hsms", "ZZ_C01_tree", depth=1, width=2, menu=13, maxn=2, timeout_s=7200)]
         bsizes = [255, 256, 257, 65535, 65536]
     for kind in (0, 1, 3, 11, 12, 6):  # list, binary, ascii, u1, u2, i2
         w = [1, 1, 1, 1, 8, 1, 2, 4, 8, 4, 8, 1, 2, 4][kind]
@@ -92,6 +92,7 @@ def c03_jobs(tier):
             jobs.append(J("hsms", "ZZ_C03_lenbytes", kind=kind, nlb=nlb, present=present, fuel=2_000_000_000, timeout_s=(1500 if tier == "quick" else 7200)))
     for order in range(4):
         jobs.append(J("hsms", "ZZ_C03_mixed", order=order, fuel=400_000_000))
+    jobs += [J("ast", "ZZ_C13_header", typ=t) for t in (0, 1, 3, 6, 10)]  # re-encoding uses the item header for every size
     # decode -> re-encode of whole trees (harness shared with C01): nested lists of equal size, empty items first, ...
     if tier == "quick":
         jobs.append(J("hsms", "ZZ_C01_tree", depth=2, width=2, menu=2, maxn=1))
@@ -174,8 +175,8 @@ def c10_jobs(tier):
         return out
     if tier == "quick":
         return shards(1, 2, 1, 2, 2, 1, 0, timeout_s=1500)
-    return (shards(1, 2, 1, 3, 4, 1, 1, timeout_s=7200) + shards(2, 1, 1, 2, 2, 1, 1, timeout_s=7200)
-            + shards(1, 2, 1, 2, 2, 2, 1, timeout_s=7200) + shards(0, 3, 1, 3, 4, 0, 0, timeout_s=7200))
+    return (shards(1, 2, 1, 2, 3, 1, 1, timeout_s=7200) + shards(2, 1, 1, 2, 2, 1, 0, timeout_s=7200)
+            + shards(1, 2, 1, 1, 2, 2, 1, timeout_s=7200) + shards(0, 3, 1, 3, 4, 0, 0, timeout_s=7200))
 
 
 def c11_jobs(tier):
@@ -463,7 +464,7 @@ PROPS = {
     "C10": dict(jobs=c10_jobs,
                 level_text="Bounded exhaustive symbolic exploration: every list template within the bound (item kinds, ellipsis positions, nesting are decisions) x every assignment of repeat counts 0..R or unfilled, compared with a reference expander written from the documentation.",
                 level_note="Structural property: exhaustiveness is over templates/assignments within the bound. '...' and '...[0]' are both accepted for a single remaining ellipsis. Trusted: go/ssa, engine, the reference expander (harness/ast/c10.go).",
-                bounds={"quick": "two levels of lists; top level <=2 items before and <=1 after an ellipsis, nested lists 1 item before and none after an ellipsis; item menu {constant, <I1 v>, nested list}; repeat counts 0..2 or unfilled", "thorough": "item menu of 4 leaf kinds, R<=3; three levels; nested lists with 2 items before"},
+                bounds={"quick": "two levels of lists; top level <=2 items before and <=1 after an ellipsis, nested lists 1 item before and none after an ellipsis; item menu {constant, <I1 v>, nested list}; repeat counts 0..2 or unfilled", "thorough": "two levels with an item menu of 3 leaf kinds and counts 0..2; three levels (1 item before each ellipsis); nested lists with 2 items before and counts 0..1; flat lists of up to 3 items over 4 leaf kinds with counts 0..3"},
                 outside=["larger templates and repeat counts (the property's 'randomly beyond')", "negative repeat counts"]),
     "C16": dict(jobs=c16_jobs,
                 level_text="Bounded exhaustive symbolic exploration of tree shapes (every choice of kinds, variable positions, ellipsis positions is a decision explored by the engine) under three map iteration orders; Variables() is compared with the construction order and with the names tokenised from String().",
@@ -498,7 +499,7 @@ PROPS = {
     "C01": dict(jobs=c01_jobs,
                 level_text="Bounded model checking of encode->decode->encode by symbolic execution of the real encoder and decoder: header fields and every element value symbolic, shapes enumerated within the bound.",
                 level_note="Trusted: go/ssa, engine, z3. Shapes beyond the bound and items above 65,537 elements are outside.",
-                bounds={"quick": "leaf formats x n<=2 elements; list trees depth<=2 width<=2 over 3 leaf formats; length boundaries 255/256/257", "thorough": "n<=6; trees depth<=3; all 13 leaf formats in lists; boundaries up to 65535/65536"},
+                bounds={"quick": "leaf formats x n<=2 elements; list trees depth<=2 width<=2 over 3 leaf formats; length boundaries 255/256/257", "thorough": "n<=6; trees depth 2 over 6 leaf formats, depth 3 over 1, depth 1 width 2 over all 13 formats with up to 2 elements; boundaries up to 65535/65536"},
                 outside=["items of more than 65,537 elements", "trees beyond the stated depth/width", "messages built by the SML parser (covered by C04/C05 through ToBytes)"]),
     "C02": dict(jobs=c02_jobs,
                 level_text="Bounded model checking: the encoder's output is compared byte for byte with an independent statement of SEMI E5/E37 for every value of every element (symbolic) within enumerated shapes; incomplete messages encode to nothing.",
